@@ -268,6 +268,15 @@ def run(ctx) -> None:
     r1_identity(ctx)
     r2_counts(ctx)
     r3_protocol(ctx)
+    # the handle of the enclosing Conditional that If / Else hand out is the builder's own, refreshed one (a handle re-read from a stored
+    # `.parent` field is equal but carries the count of when it was stored)
+    q_ = "hugr.build.cond_loop._IfElse.conditional_node"
+    fn_, m_, _ = ctx.locate(q_)
+    ps_ = ctx.paths(q_)
+    ok_ = bool(ps_) and all(p_.kind == "return" and p_.value_text() == "self._parent_conditional().parent_node" for p_ in ps_ if p_.kind != "raise")
+    ctx.check(ok_, "C16.R2", "_IfElse.conditional_node: the builder's refreshed handle", m_.path, fn_.lineno,
+              "conditional_node must be the Conditional builder's current parent_node (the handle _update_port_count keeps fresh), not a handle read back "
+              "from a node's stored parent", fn_, expected="self._parent_conditional().parent_node", found="; ".join(p_.value_text() for p_ in ps_)[:200])
     ctx.rule("C16.R4", "the output count a builder records for a container node is the count of its signature (shared with C01.R3): handles enumerate exactly those ports", floor=30)
     from .c01 import r3_rows
     with ctx.as_rule(C01_R3="C16.R4"):
